@@ -171,7 +171,7 @@ theorem c_sendLogonInReplyTo (b : SState) (s : Sess) (r : Bool) :
 theorem c_sendLogonRe (b : SState) (s : Sess) (r : Bool) (m : InMsg) :
     sendLogonRe (s.setSt b) r m = (sendLogonRe s r m).setSt b := by
   unfold sendLogonRe
-  have : logonMsg (s.setSt b) r = logonMsg s r := rfl
+  have : logonMsgRe (s.setSt b) r m = logonMsgRe s r m := rfl
   rw [this, c_dropAndSend]
 
 theorem c_sendLogout (b : SState) (s : Sess) (h : Same b s) : sendLogout (s.setSt b) = (sendLogout s).setSt b :=
@@ -444,29 +444,83 @@ theorem c_logonReply (b : SState) (s : Sess) (m : InMsg) (flag : Bool) (h : Same
     · rfl
     · exact c_sendLogonRe b _ flag m
 
-theorem c_logonFinish (b : SState) (s : Sess) (m : InMsg) : logonFinish (s.setSt b) m = mapSt b (logonFinish s m) := by
-  unfold logonFinish mapSt
+theorem c_nxEval (b : SState) (s : Sess) (m : InMsg) (ns : Int) (h : Same b s) :
+    nxEval (s.setSt b) m ns = mapSt b (nxEval s m ns) := by
+  unfold nxEval mapSt
+  reads
+  by_cases h1 : (s.cfg.nextExpected && !(m.f.has 141)) = true
+  · simp only [h1, ↓reduceIte]
+    cases peerNext m with
+    | none => rfl
+    | some n =>
+      simp only []
+      by_cases h2 : (n != ns) = true
+      · simp only [h2, ↓reduceIte]
+        by_cases h3 : s.cfg.persist = true
+        · simp only [h3, ↓reduceIte]
+          rw [c_enqueueAndSend b s _ h]; rfl
+        · simp only [h3, ↓reduceIte, Bool.false_eq_true]
+      · simp only [h2, ↓reduceIte, Bool.false_eq_true]
+  · simp only [h1, ↓reduceIte, Bool.false_eq_true]
+
+theorem c_logonFinish (b : SState) (s : Sess) (m : InMsg) (ns : Int) (h : Same b s) :
+    logonFinish (s.setSt b) m ns = mapSt b (logonFinish s m ns) := by
+  unfold logonFinish
   have c2 : ∀ x : Sess, checkTooHigh (x.setSt b) m = checkTooHigh x m := fun _ => rfl
   dsimp only [setSt_setSentReset, setSt_emit, setSt_hb]
-  rw [c2]
-  split <;> rfl
+  have h' : Same b (((s.setSentReset false).emit (Obs.armPeer (1200 * s.hb))).emit Obs.onLogon) :=
+    h.of_Q (((Q.of_eq (s := s) (s' := s.setSentReset false) rfl rfl rfl rfl rfl rfl rfl).trans0 (q_emit _ _ rfl)).trans0 (q_emit _ _ rfl))
+  rw [c_nxEval b _ m ns h']
+  generalize nxEval (((s.setSentReset false).emit (Obs.armPeer (1200 * s.hb))).emit Obs.onLogon) m ns = r
+  obtain ⟨x, o⟩ := r
+  cases o with
+  | some r => rfl
+  | none =>
+    simp only [mapSt, c2]
+    split <;> rfl
+
+theorem logonRefuses_setSt (b : SState) (s : Sess) (m : InMsg) (flag : Bool) (h : Same b s) :
+    logonRefuses (s.setSt b) m flag = logonRefuses s m flag := by
+  have e1 : nxRefuses (s.setSt b) m = nxRefuses s m := rfl
+  unfold logonRefuses
+  rw [e1]
+  show (!s.cfg.initiator && !(flag && s.sentReset && b.loggedOn) && nxRefuses s m) = _
+  rw [h.lo]
+
+theorem c_logonRefused (b : SState) (s : Sess) (m : InMsg) : logonRefused (s.setSt b) m = (logonRefused s m).setSt b := by
+  unfold logonRefused
+  reads
+  by_cases h1 : (!s.cfg.initiator && !s.cfg.hbOverride) = true
+  · simp only [h1, ↓reduceIte]
+    cases getInt m 108 <;> rfl
+  · simp only [h1, ↓reduceIte, Bool.false_eq_true]
+
+theorem c_logonTail (b : SState) (s : Sess) (m : InMsg) (ns : Int) (h : Same b s) :
+    logonTail (s.setSt b) m ns = mapSt b (logonTail s m ns) := by
+  unfold logonTail
+  rw [logonRefuses_setSt b s m _ h]
+  by_cases h1 : logonRefuses s m (logonResetFlag m) = true
+  · simp only [h1, ↓reduceIte, c_logonRefused, mapSt]
+  · simp only [h1, ↓reduceIte, Bool.false_eq_true]
+    rw [c_logonReply b s m _ h]
+    exact c_logonFinish b _ m _ (h.of_Q (q_logonReply s m _))
 
 /-- the part of handleLogon after the optional refresh -/
-theorem c_handleLogon_tail (b : SState) (s1 : Sess) (m : InMsg) (h : Same b s1) :
+theorem c_handleLogon_tail (b : SState) (s1 : Sess) (m : InMsg) (ns : Int) (h : Same b s1) :
     (match verifyAppImpl (s1.setSt b) m with
       | (s, some r) => (s, some (LogonErr.rej r))
       | (s, none) =>
         match verifySelect (if ((if s.cfg.initiator then false else s.cfg.resetOnLogon) || (logonResetFlag m && !s.sentReset)) = true
               then dropAndReset s else s) m false true false with
         | (s, some r) => (s, some (LogonErr.rej r))
-        | (s, none) => logonFinish (logonReply s m (logonResetFlag m)) m) =
+        | (s, none) => logonTail s m ns) =
     mapSt b (match verifyAppImpl s1 m with
       | (s, some r) => (s, some (LogonErr.rej r))
       | (s, none) =>
         match verifySelect (if ((if s.cfg.initiator then false else s.cfg.resetOnLogon) || (logonResetFlag m && !s.sentReset)) = true
               then dropAndReset s else s) m false true false with
         | (s, some r) => (s, some (LogonErr.rej r))
-        | (s, none) => logonFinish (logonReply s m (logonResetFlag m)) m) := by
+        | (s, none) => logonTail s m ns) := by
   rw [c_verifyAppImpl]
   have hv := q_verifyAppImpl s1 m
   generalize verifyAppImpl s1 m = r at hv
@@ -495,7 +549,7 @@ theorem c_handleLogon_tail (b : SState) (s1 : Sess) (m : InMsg) (h : Same b s1) 
     obtain ⟨s4, o2⟩ := r2
     cases o2 with
     | some r => rfl
-    | none => simp only [mapSt, c_logonReply b s4 m _ ((h.of_Q q3).of_Q q4), c_logonFinish]
+    | none => simp only [mapSt, c_logonTail b s4 m ns ((h.of_Q q3).of_Q q4)]
 
 theorem c_handleLogon (b : SState) (s : Sess) (m : InMsg) (h : Same b s) :
     handleLogon (s.setSt b) m = mapSt b (handleLogon s m) := by
@@ -506,9 +560,9 @@ theorem c_handleLogon (b : SState) (s : Sess) (m : InMsg) (h : Same b s) :
   · simp only [h0, ↓reduceIte, Bool.false_eq_true]
     by_cases h1 : (!s.cfg.initiator && s.cfg.refreshOnLogon) = true
     · simp only [h1, ↓reduceIte]
-      exact c_handleLogon_tail b (s.emit .refresh) m (h.of_Q (q_emit s _ rfl))
+      exact c_handleLogon_tail b (s.emit .refresh) m _ (h.of_Q (q_emit s _ rfl))
     · simp only [h1, ↓reduceIte, Bool.false_eq_true]
-      exact c_handleLogon_tail b s m h
+      exact c_handleLogon_tail b s m _ h
 
 theorem c_inSessionFixMsgIn (b : SState) (s : Sess) (m : InMsg) (h : Same b s) :
     inSessionFixMsgIn (s.setSt b) m = mapSt b (inSessionFixMsgIn s m) := by
@@ -817,10 +871,26 @@ theorem hb_verifySelect (s : Sess) (m : InMsg) (a b c : Bool) : (verifySelect s 
   repeat' split
   all_goals first | rfl | exact hb_verifyAppImpl s m
 
-theorem hb_logonFinish (s : Sess) (m : InMsg) : (logonFinish s m).1.hb = s.hb := by
-  unfold logonFinish
-  simp only []
+theorem hb_enqueueAndSend (s : Sess) (m : OutMsg) : (enqueueAndSend s m).hb = s.hb := by
+  unfold enqueueAndSend
+  simp only [hb_sendQueued]
   split <;> rfl
+
+theorem hb_nxEval (s : Sess) (m : InMsg) (ns : Int) : (nxEval s m ns).1.hb = s.hb := by
+  unfold nxEval
+  repeat' split
+  all_goals first | rfl | exact hb_enqueueAndSend _ _
+
+theorem hb_logonFinish (s : Sess) (m : InMsg) (ns : Int) : (logonFinish s m ns).1.hb = s.hb := by
+  unfold logonFinish
+  have h := hb_nxEval (((s.setSentReset false).emit (.armPeer (1200 * s.hb))).emit .onLogon) m ns
+  generalize nxEval _ m ns = r at h
+  obtain ⟨x, o⟩ := r
+  cases o with
+  | some r => exact h
+  | none =>
+    simp only [] at h ⊢
+    split <;> exact h
 
 /-- the interval in force after the Logon reply -/
 def hbAfterLogon (s : Sess) (m : InMsg) : Int :=
@@ -886,7 +956,11 @@ theorem hb_handleLogon (s s' : Sess) (m : InMsg) (r : Option LogonErr) (h : hand
       · rename_i s4 heq2
         rw [heq2] at hv2 hq2
         simp only [] at hv2 hq2
-        have hfin := hb_logonFinish (logonReply s4 m (logonResetFlag m)) m
+        unfold logonTail at h
+        split at h
+        · simp only [Prod.mk.injEq] at h
+          rcases hok with rfl | ⟨n, t, rfl⟩ <;> simp at h
+        have hfin := hb_logonFinish (logonReply s4 m (logonResetFlag m)) m s.store.sender
         rw [h] at hfin
         simp only [] at hfin
         rw [hfin, hb_logonReply]
